@@ -720,6 +720,84 @@ class NotUnderstood(Exception):
   pass
 
 
+def record_fields(mod, name):
+  """The field names, in declaration order, of the module-local record class
+  `name`: a `@dataclasses.dataclass(...)` class without bases or a direct
+  `typing.NamedTuple` subclass, whose generated constructor takes exactly its
+  annotated fields (no __init__/__new__/__post_init__, no init=False / kw_only /
+  ClassVar / InitVar / field(...) specifications).  None when `name` is not
+  such a class (the caller then treats the call as opaque)."""
+  node = mod.classes.get(name)
+  if node is None or not isinstance(node, ast.ClassDef):
+    return None
+  binds = [n for n in ast.walk(mod.tree) if (isinstance(n, ast.Name) and n.id == name
+                                             and isinstance(n.ctx, (ast.Store, ast.Del)))
+           or (isinstance(n, _FUNCS + (ast.ClassDef,)) and n.name == name)]
+  if len(binds) != 1:
+    return None
+  decos = [dotted(d.func if isinstance(d, ast.Call) else d) for d in node.decorator_list]
+  bases = [dotted(b) for b in node.bases]
+  if node.keywords:
+    return None
+  if decos and all(d in ("dataclasses.dataclass", "dataclass") for d in decos) and len(decos) == 1 \
+      and not bases:
+    d = node.decorator_list[0]
+    if isinstance(d, ast.Call) and (d.args or any(
+        k.arg not in ("frozen", "eq", "order", "repr", "unsafe_hash", "slots") for k in d.keywords)):
+      return None
+  elif not decos and bases in (["NamedTuple"], ["typing.NamedTuple"]):
+    pass
+  else:
+    return None
+  fields = []
+  for st in node.body:
+    if isinstance(st, ast.AnnAssign):
+      if not isinstance(st.target, ast.Name) or st.value is not None and isinstance(st.value, ast.Call):
+        return None
+      if any(isinstance(n, ast.Name) and n.id in ("ClassVar", "InitVar", "KW_ONLY")
+             or isinstance(n, ast.Attribute) and n.attr in ("ClassVar", "InitVar", "KW_ONLY")
+             for n in ast.walk(st.annotation)) or isinstance(st.annotation, ast.Constant):
+        return None
+      fields.append(st.target.id)
+    elif isinstance(st, _FUNCS):
+      if st.name in ("__init__", "__new__", "__post_init__", "__getattribute__", "__getattr__") \
+          or st.name in fields:
+        return None
+    elif isinstance(st, ast.Expr) and isinstance(st.value, ast.Constant):
+      continue
+    else:
+      return None
+  if not fields or len(set(fields)) != len(fields):
+    return None
+  return fields
+
+
+def record_loop_roles(loop, fields):
+  """For `for t in <records>:` (fields = the record's three fields in
+  declaration order): the roles the fields play in the loop, decided by use -
+  the single get_attribute call looks `t.<method field>` up on
+  `t.<left field>.data`; the remaining field is the right operand.  Returns
+  the indices (left, right, method) into `fields`, or a problem text."""
+  if not isinstance(loop.target, ast.Name) or len(fields) != 3:
+    return "the records are not bound to one loop variable of three fields"
+  t = loop.target.id
+  if any(isinstance(n, ast.Name) and n.id == t and isinstance(n.ctx, (ast.Store, ast.Del))
+         for st in loop.body for n in ast.walk(st)):
+    return f"the loop variable `{t}` is re-bound in the loop"
+  calls = [c for st in loop.body for c in ast.walk(st) if isinstance(c, ast.Call)
+           and isinstance(c.func, ast.Attribute) and c.func.attr == "get_attribute"]
+  if len(calls) != 1 or calls[0].keywords or len(calls[0].args) < 3:
+    return "the loop does not make exactly one positional get_attribute call"
+  got = (src(calls[0].args[1]), src(calls[0].args[2]))
+  left = [i for i, f in enumerate(fields) if got[0] == f"{t}.{f}.data"]
+  meth = [i for i, f in enumerate(fields) if got[1] == f"{t}.{f}"]
+  if len(left) != 1 or len(meth) != 1 or left == meth:
+    return (f"get_attribute looks {got[1]} up on {got[0]}, expected {t}.<field> on "
+            f"{t}.<another field>.data")
+  right = ({0, 1, 2} - {left[0], meth[0]}).pop()
+  return (left[0], right, meth[0])
+
+
 class ListPaths:
   """Enumerates, path by path, the list a piece of straight-line / branching
   code builds: `xs = [a]; if c: xs.append(b); if d: xs.reverse()`,
@@ -736,6 +814,7 @@ class ListPaths:
 
   def __init__(self, mod, cls=None, depth=2):
     self.mod, self.cls, self.depth = mod, cls, depth
+    self.records = {}     # record class name -> its fields, for every record evaluated
 
   # -- public ------------------------------------------------------------------
   def at_loop(self, fn, loop):
@@ -775,6 +854,23 @@ class ListPaths:
       return ("tuple", tuple(src(self._node(x, env)) for x in e.elts))
     if isinstance(e, ast.Name) and e.id in env:
       return env[e.id]
+    if isinstance(e, ast.Call) and isinstance(e.func, ast.Name) and e.func.id not in env:
+      fields = record_fields(self.mod, e.func.id)
+      if fields is not None:
+        # a module-local frozen record (dataclass / NamedTuple) constructed
+        # positionally or by keyword is the tuple of its fields in declaration order
+        if any(isinstance(a, ast.Starred) for a in e.args) or any(k.arg is None for k in e.keywords) \
+            or len(e.args) > len(fields):
+          raise NotUnderstood(f"`{src(e)[:50]}`: starred / surplus record arguments")
+        given = dict(zip(fields, e.args))
+        for k in e.keywords:
+          if k.arg not in fields or k.arg in given:
+            raise NotUnderstood(f"`{src(e)[:50]}`: `{k.arg}` is not a free field of {e.func.id}")
+          given[k.arg] = k.value
+        if set(given) != set(fields):
+          raise NotUnderstood(f"`{src(e)[:50]}` does not give every field of {e.func.id}")
+        self.records.setdefault(e.func.id, tuple(fields))
+        return ("tuple", tuple(src(self._node(given[f], env)) for f in fields))
     return ("sym", self._node(e, env))
 
   def _eval_forking(self, e, env, path, level):
